@@ -17,7 +17,7 @@ ASSUMPTIONS = [
     'latitude L1 (listing order), L2 (directories that only hold the cache file are masked), L3 (size of a directory) - DESIGN.md section 3',
     'function results embed version tag, arguments and every observation; output contents embed a digest of the observations',
 ]
-CFG = gen.cfg_with(max_root=6, max_funcs=6, fail_after_nested_p=0.18)
+CFG = gen.cfg_with(max_root=6, max_funcs=6, fail_after_nested_p=0.18, alt_roots_p=0.3, kwargs_p=0.15)
 CFG_BIG = gen.cfg_with(universe=gen.UNIV_BIG, max_root=7, max_funcs=6, max_body=5)
 
 
